@@ -1,7 +1,7 @@
 SPECIFICATION Spec
 CONSTANTS MsgSrc <- S5  MsgMid <- M5  MsgTot <- T5  CapSrc = 2  CapAll = 3  MaxDeliv = 4  MaxTick = 1
   GridP <- GP1  GridMM <- GM1
-  DecOnComplete = TRUE  DupCheck = TRUE  TotalCheck = TRUE  CapStrict = FALSE  GcOn = TRUE
+  DecOnComplete = TRUE  DupCheck = TRUE  TotalCheck = TRUE  CapStrict = FALSE  GcOn = TRUE  IdEarly = TRUE
 INVARIANT NoViolation
 
 VIEW View
